@@ -1,6 +1,7 @@
 ----------------------------- MODULE MCScopes -----------------------------
 EXTENDS Scopes
-NameSet == {"sin", "cos", "alog", "log"}
+NameSet == {"sin", "cos", "alog", "log", "erf", "gamma"}
+F08Names == {"erf", "gamma"}
 OneName == {"sin"}
 Specific == {"alog", "log"}
 Three == {"sin", "alog", "log"}
